@@ -1161,3 +1161,37 @@ def v16_injectivity_is_about_values(ctx) -> None:
                               "two parent statistics into one child statistic is declared a possible equivalence, filed as such and preferred to a forward rule")
     if n < 1:
         ctx.floor("V16", 99)
+
+
+def v17_quotient_bookkeeping(ctx) -> None:
+    """A Quotient divides polynomials in the *product's* statistics: `_num_parent_params` is the
+    number of statistics of the product's parent, and every Quotient a strategy hands out is
+    given the dictionaries (a quotient without them treats every statistic as dropped)."""
+    P = ctx.P
+    init = P.need_method("Quotient", "__init__", own=True)
+    ctx.analysed(init)
+    ps = init.params()[1:]
+    parent = ps[0]
+    st = [s_ for s_ in walk_local(init.node) if isinstance(s_, ast.Assign) and any(is_self_attr(t, "_num_parent_params") for t in s_.targets)]
+    if not st:
+        raise AnalysisError("V17: Quotient.__init__ no longer keeps _num_parent_params")
+    for s_ in st:
+        if norm(D.expanded(init.node, s_.value)) == f"len({parent}.extra_parameters)":
+            ctx.ok("V17", "the quotient's polynomial ring has one variable per statistic of the product's parent")
+        else:
+            ctx.violation("V17", s_, f"Quotient._num_parent_params is `{norm(s_.value)[:60]}`, not len({parent}.extra_parameters): the division is carried out in the statistics of the "
+                          "product (A = B x C), whatever the counted factor keeps of them")
+    n = 0
+    for fi in P.all_functions():
+        if fi.cls is None or fi.name != "reverse_constructor":
+            continue
+        for c in walk_local(fi.node):
+            if isinstance(c, ast.Call) and norm(c.func) == "Quotient":
+                n += 1
+                if any(k.arg == "extra_parameters" for k in c.keywords) or len(c.args) >= 4:
+                    ctx.ok("V17", f"{fi.qualname} hands the dictionaries to the Quotient it makes")
+                else:
+                    ctx.violation("V17", c, f"{fi.qualname} makes `{norm(c)[:50]}` without extra_parameters: the quotient then reads every statistic of the product as dropped by "
+                                  "every factor, and the counted factor's terms lose the statistics of the parent")
+    if n < 1:
+        ctx.floor("V17", 99)
